@@ -74,6 +74,7 @@ static int socketpair(int domain, int type, int protocol, SOCKET *out)
   r = getsockopt(pair[0], SOL_SOCKET, SO_PROTOCOL_INFOW, (char *) &info.data,
                  &info.size);
   if (r < 0) {
+    r = -WSAGetLastError();
     goto finish;
   }
 
